@@ -213,6 +213,23 @@ def cat(interp, segs: List[Grid]):
     return Grid([[(idx, total)]], Term("piecewise", pieces))
 
 
+def ceildiv(interp, a: Poly, b: Poly) -> Poly:
+    """ceil(a/b) for integer polys; exact simplifications only"""
+    if b == Poly.const(1):
+        return a
+    if a.is_const() and b.is_const() and b.as_const() > 0:
+        q = a.as_const() / b.as_const()
+        return Poly.const(-((-q.numerator) // q.denominator))
+    if a == b:
+        return Poly.const(1)
+    # a = b + 1 with b >= 1  ->  2   (window slice [k : k+tau+1 : tau])
+    d = a - b
+    if d == Poly.const(1) and b.is_monomial() and all(at in interp.ge1_atoms for at in b.atoms()) and \
+            b.single_term()[0] >= 1:
+        return Poly.const(2)
+    return Poly.app("ceildiv", a, b)
+
+
 def grid_len(v) -> Optional[Poly]:
     return value_len(v)
 
@@ -507,7 +524,8 @@ def grid_subscript(interp, g: Grid, idx: V, node) -> V:
                 lo2 = _norm_bound(lo, n, Poly.const(0))
                 hi2 = _norm_bound(hi, n, n)
                 ni = interp.fresh_idx("s")
-                cnt = Poly.app("ceildiv", hi2 - lo2, st)
+                cnt = ceildiv(interp, hi2 - lo2, st)
+                interp.events.append(("strided_slice", lo2, hi2, st, n, interp.where(), interp.guards(), tuple(interp.frames)))
                 if st == Poly.const(-1) and lo is None and hi is None:
                     cnt = n
                     elem = subst(elem, {d[0][0]: n - 1 - Poly.atom(ni)})
